@@ -181,7 +181,7 @@ pub fn compile(sc: &K16) -> KChild {
         (Some(what), Some(i)) if i + 1 < connects.len() => vec![(i + 1, "airports.csv".to_string(), what.clone())],
         _ => vec![],
     };
-    KChild { outage, tz: None, file_ops, rust_log: sc.rust_log.clone(), gpsd: None, ev_delay_us: vec![], connects, events, proc_delay_us: sc.proc_delay_us.clone(), coalesce: sc.coalesce.clone(), step_budget: 60_000 + 4 * outage.map(|o| o.1 as u64).unwrap_or(0) + if sc.volume.is_some() { 4 * volume_iterations + 1_200_000 } else { 0 } }
+    KChild { winsz_ops: vec![], outage, tz: None, file_ops, rust_log: sc.rust_log.clone(), gpsd: None, ev_delay_us: vec![], connects, events, proc_delay_us: sc.proc_delay_us.clone(), coalesce: sc.coalesce.clone(), step_budget: 60_000 + 4 * outage.map(|o| o.1 as u64).unwrap_or(0) + if sc.volume.is_some() { 4 * volume_iterations + 1_200_000 } else { 0 } }
 }
 
 // ---------------------------------------------------------------------------- generation
